@@ -3,6 +3,7 @@ module verif
 go 1.26
 
 require (
+	github.com/anishathalye/porcupine v1.3.0
 	seata.apache.org/seata-go v0.0.0
 	dubbo.apache.org/dubbo-go/v3 v3.0.4
 	github.com/DATA-DOG/go-sqlmock v1.5.0
